@@ -262,6 +262,21 @@ func parseContractFile(path, pkg string) (*ContractFile, error) {
 					cur.Sites = append(cur.Sites, &Clause{Kind: kind, Name: hd[0], Region: hd[1], Src: strings.TrimSpace(fs[1]), Expr: ex, Line: l.no, LoopKey: callee})
 					continue
 				}
+				if tr := strings.TrimSpace(rest[sp+1:]); strings.HasPrefix(tr, "collect ") {
+					// callsite <callee> collect <set> <elemtype>: <expr>  — a monotone ghost SET: at every call of the
+					// callee the value of <expr> is added; read with collected(<set>, x)
+					fs := strings.SplitN(strings.TrimSpace(tr[8:]), ":", 2)
+					hd := strings.Fields(fs[0])
+					if len(fs) != 2 || len(hd) != 2 {
+						return nil, fail("collect needs: <set> <elemtype>: <expr>")
+					}
+					ex, err := parseContractExpr(strings.TrimSpace(fs[1]))
+					if err != nil {
+						return nil, fail(err.Error())
+					}
+					cur.Sites = append(cur.Sites, &Clause{Kind: "collect", Name: hd[0], Region: hd[1], Src: strings.TrimSpace(fs[1]), Expr: ex, Line: l.no, LoopKey: callee})
+					continue
+				}
 				name, props, body, err := splitClauseHead(rest[sp+1:])
 				if err != nil {
 					return nil, fail(err.Error())
